@@ -24,7 +24,9 @@ echo "== demo without change (must PASS)"; git stash -q; go test -vet=off -count
 tail -3 $out/demo_without.log
 for d in $demos; do mkdir -p $out/demo/$(dirname $d); cp $d $out/demo/$d; done
 echo "demo_with_exit=$w demo_without_exit=$wo suite_clean=$([ -s $out/suite.log ] && echo no || echo yes)"
-echo "== check $prop $tier against the worktree"
+echo "== check $prop $tier against the worktree (demo moved away)"
+mkdir -p /tmp/seedtmp2.$$; for d in $demos; do mkdir -p /tmp/seedtmp2.$$/$(dirname $d); mv $W/$d /tmp/seedtmp2.$$/$d; done
 cd /verif && GOSYM_REPO=$W ./bin/gosym check $prop $tier > $out/check_$prop.$tier.log 2>&1; c=$?
+for d in $demos; do mv /tmp/seedtmp2.$$/$d $W/$d; done; rm -rf /tmp/seedtmp2.$$
 grep -h "^VIOLATION\|^INCONCLUSIVE\|^OK\|^KNOWN" $out/check_$prop.$tier.log | cut -c1-220 | head -8
 echo "check_exit=$c"
